@@ -307,10 +307,11 @@ class Runner:
             finally:
                 os._exit(0)
         os.close(w)
-        data = _read_all(r, timeout, pid)
+        part = []
+        data = _read_all(r, timeout, pid, part)
         _, status = os.waitpid(pid, 0)
         ev = []
-        text = (data or b"").decode("utf8", "replace")
+        text = (data if data is not None else (part[0] if part else b"")).decode("utf8", "replace")
         for line in text.splitlines():
             try:
                 ev.append(json.loads(line))
@@ -451,8 +452,8 @@ class Runner:
             d["why"] = why[:4]
 
 
-def _read_all(fd, timeout, pid):
-    """Read until EOF or timeout; on timeout kill pid and return None."""
+def _read_all(fd, timeout, pid, partial=None):
+    """Read until EOF or timeout; on timeout kill pid and return None (what was read so far goes to `partial`)."""
     chunks = []
     deadline = time.time() + timeout
     while True:
@@ -463,6 +464,8 @@ def _read_all(fd, timeout, pid):
             except ProcessLookupError:
                 pass
             os.close(fd)
+            if partial is not None:
+                partial.append(b"".join(chunks))
             return None
         rl, _, _ = select.select([fd], [], [], min(left, 1.0))
         if rl:
